@@ -293,6 +293,42 @@ def _inline_block(M, fn, stmts: List[ast.stmt], caller_locals: set, changed: Lis
                 continue
         # expression-level helpers
         pre = []
+        if isinstance(st, (ast.Expr, ast.Assign, ast.AugAssign, ast.AnnAssign, ast.Return)):
+            # a straight-line helper called inside the expression of a simple statement: its body is hoisted before the statement
+            # (only calls evaluated unconditionally: not under a lambda / comprehension / conditional expression / and-or)
+            def uncond_calls(e):
+                outc = []
+                def rec(x):
+                    if isinstance(x, (ast.Lambda, ast.ListComp, ast.SetComp, ast.DictComp, ast.GeneratorExp, ast.IfExp, ast.BoolOp)):
+                        return
+                    if isinstance(x, ast.Call):
+                        outc.append(x)
+                    for ch in ast.iter_child_nodes(x):
+                        rec(ch)
+                rec(e)
+                return outc
+            val = getattr(st, "value", None)
+            for c_ in (uncond_calls(val) if val is not None else []):
+                if c_ is call:
+                    continue
+                h2 = _resolve_helper(M, fn, c_)
+                if h2 is not None and _simple_helper(h2.node) == "stmts":
+                    mp2 = _bind(h2, c_, pre)
+                    if mp2 is None:
+                        continue
+                    body2, ret2 = _instantiate(h2, mp2, caller_locals)
+                    if ret2 is None:
+                        continue
+                    pre.extend(body2)
+                    changed.append(h2.qual)
+                    caller_locals |= {n.id for s_ in body2 for n in ast.walk(s_) if isinstance(n, ast.Name) and isinstance(n.ctx, ast.Store)}
+
+                    class _Swap(ast.NodeTransformer):
+                        def visit_Call(self, n, c_=c_, ret2=ret2):
+                            if n is c_:
+                                return ret2
+                            return self.generic_visit(n)
+                    st = _Swap().visit(st)
         if not isinstance(st, (ast.FunctionDef, ast.AsyncFunctionDef, ast.ClassDef, ast.For, ast.While, ast.If, ast.With, ast.Try)):
             st = _ExprInliner(M, fn, pre, changed).visit(st)
         else:
@@ -573,6 +609,10 @@ def _inline_closures(node: ast.FunctionDef, changed: List[str]) -> None:
                 block[i:i] = inl.pre
                 i += len(inl.pre)
             i += 1
+    # a closure that is no longer referenced is dropped
+    for name in list(closures):
+        if not any(isinstance(n, ast.Name) and n.id == name and isinstance(n.ctx, ast.Load) for n in ast.walk(node)):
+            node.body = [st for st in node.body if not (isinstance(st, ast.FunctionDef) and st.name == name)]
 
 
 # ------------------------------------------------------------------ optional steps
@@ -629,7 +669,20 @@ def _blocks(node):
     return out
 
 
-def _forward_subst(fn_node: ast.FunctionDef, keep: set) -> None:
+def _is_path(e: ast.AST) -> bool:
+    """a name, an attribute chain, or a constant subscript of one: `self[0].bpms`, `RAConst.msec_to_sec`"""
+    while True:
+        if isinstance(e, (ast.Name, ast.Constant)):
+            return True
+        if isinstance(e, ast.Attribute):
+            e = e.value
+        elif isinstance(e, ast.Subscript) and isinstance(e.slice, ast.Constant):
+            e = e.value
+        else:
+            return False
+
+
+def _forward_subst(fn_node: ast.FunctionDef, keep: set, alias_only: bool = False) -> None:
     """substitute single-assignment locals (assigned once from an expression, all uses later in the same block or below it)"""
     params = {a.arg for a in fn_node.args.posonlyargs + fn_node.args.args + fn_node.args.kwonlyargs}
     for _ in range(24):
@@ -654,8 +707,9 @@ def _forward_subst(fn_node: ast.FunctionDef, keep: set) -> None:
                     continue
                 rest = block[i + 1:]
                 uses = [n for s2 in rest for n in ast.walk(s2) if isinstance(n, ast.Name) and n.id == v and isinstance(n.ctx, ast.Load)]
-                trivial = isinstance(st.value, (ast.Name, ast.Constant)) or (isinstance(st.value, ast.Attribute) and
-                                                                         isinstance(st.value.value, (ast.Name, ast.Attribute)))
+                trivial = _is_path(st.value)
+                if alias_only and not trivial and not (v.startswith("__") and loads.get(v, 0) == 1):
+                    continue      # (temporaries the normaliser itself introduced for arguments are always put back)
                 if not uses or len(uses) != loads.get(v, 0) or (len(uses) > 3 and not trivial):
                     continue
                 # stores THROUGH the name (v.x = .., v[i] = .., v.at[..] = ..) mean the object is mutated: keep it
@@ -701,7 +755,7 @@ def _forward_subst(fn_node: ast.FunctionDef, keep: set) -> None:
                 for n in ast.walk(rest[last]):
                     if isinstance(n, ast.Name) and isinstance(n.ctx, (ast.Store, ast.Del)) and n.id in free and not isinstance(rest[last], ast.Assign):
                         mutated = True
-                if mutated or in_loop:
+                if mutated or (in_loop and not trivial):
                     continue
                 for s2 in rest:
                     _Rename({v: st.value}).visit(s2)
@@ -869,7 +923,7 @@ def normalise(M, fn, subst: bool = False, guards: bool = False, keep=(), comps: 
     if subst:
         _inline_closures(node, [])
         _split_tuple_assigns(node)
-        _forward_subst(node, set(keep))
+        _forward_subst(node, set(keep), alias_only=(subst == "alias"))
     node = _OperatorCalls(M, fn).visit(node)
     ast.fix_missing_locations(node)
     return node
